@@ -1,5 +1,6 @@
 import Zog.HelpersSim
 import Zog.Gen.Facts
+import Zog.Props.FactsOK
 
 /-!
 # C16 — Pick, Omit, Extend and Merge build independent schemas with set semantics
